@@ -187,7 +187,7 @@ Qed.
 Lemma event_ok_spec e : event_ok e = true -> 0 <= e_ts e /\ ev_ok e.
 Proof.
   unfold event_ok, ev_ok. rewrite !andb_true_iff, orb_true_iff, negb_true_iff, Z.leb_le, Z.ltb_lt.
-  intros [[H1 H2] H3]. split; [exact H1|]. split; [exact H2|].
+  intros [H1 H3]. split; [exact H1|].
   intro Hp. destruct H3 as [H3|H3]; [congruence|exact H3].
 Qed.
 
@@ -243,12 +243,13 @@ Section HeapResume.
   Qed.
 End HeapResume.
 
-(* the condition is satisfiable and excludes exactly the inputs of the two open findings *)
+(* the condition is satisfiable and excludes the input of the open finding (zero-stay session) *)
 Lemma history_ok_example : history_ok ex_events = true.
 Proof. vm_compute. reflexivity. Qed.
 Lemma history_ok_rejects_zero_stay : history_ok [plug 1 0 0 1; plug 0 1 1 4] = false.
 Proof. vm_compute. reflexivity. Qed.
-Lemma history_ok_rejects_untyped : history_ok [plug 0 0 0 2; mk_event "Event" 4 (-1) (-1) (-1)] = false.
+(* untyped base events are allowed *)
+Lemma history_ok_accepts_untyped : history_ok [plug 0 0 0 2; mk_event "Event" 4 (-1) (-1) (-1)] = true.
 Proof. vm_compute. reflexivity. Qed.
 
 (* a concrete run on the C11 queue: two sessions and a RecomputeEvent, raise at the third call *)
